@@ -144,6 +144,8 @@ missing leading) axis is repeated -/
 def ND.broadcastTo? (v : ND α) (shape : List Nat) : Option (ND α) :=
   let nv := v.shape.length
   let n := shape.length
+  -- assignment to a single element (`a[i, j] = v`): numpy wants a 0-d value, not a sequence
+  if n = 0 ∧ nv ≠ 0 then none else
   if nv ≤ n then
     let lead := n - nv
     let tgt := shape.drop lead
